@@ -187,6 +187,19 @@ BPanic(c, kind) ==
   /\ Log([a |-> "panic", c |-> c, m |-> nxt, kind |-> kind]) /\ nxt' = nxt + 1 /\ Stepped(c) /\ Leave
   /\ UNCHANGED <<started, dead, tsStack, cancelStack, req, nres, inbox, viol>>
 
+\* a memory fault inside the body (property C24): the trap handler turns it into an error of
+\* this coroutine only; 900001 = "invalid memory reference", 900002 = "stack overflow"
+\* 900000 = either message: a real overflow faults in the guard page, which the segment records
+\* may or may not include
+FaultKinds == {"null_write", "wild_read", "foreign_stack", "overflow", "overflow_grown"}
+FaultCode(kind) == IF kind \in {"overflow", "overflow_grown"} THEN 900000
+                   ELSE IF kind = "foreign_stack" THEN 900002 ELSE 900001
+BFault(c, kind) ==
+  /\ Body(c) /\ st[c].k = "Running"
+  /\ st' = [st EXCEPT ![c] = Error(FaultCode(kind))]
+  /\ Log([a |-> "fault", c |-> c, kind |-> kind, m |-> FaultCode(kind)]) /\ Stepped(c) /\ Leave
+  /\ UNCHANGED <<started, dead, tsStack, cancelStack, req, nres, nxt, inbox, viol>>
+
 Next ==
   \E c \in Co :
     \/ Resume(c)
@@ -196,6 +209,7 @@ Next ==
     \/ (\E t \in {1, 2} : BSysSub(c, "Suspend", t))
     \/ BSysOther(c) \/ BSysExit(c) \/ BReturn(c)
     \/ (\E kind \in {"str", "string"} : BPanic(c, kind))
+    \/ (\E kind \in FaultKinds : BFault(c, kind))
 
 Spec == Init /\ [][Next]_vars
 
